@@ -25,6 +25,8 @@ func innerSplitSet(t *tree.Tree) map[uint64]bool {
 // H_C08_compare: Compare(ref, comp) counts = set differences of the split sets.
 func H_C08_compare() {
 	n := sxParam("n", 4)
+	tipNameStyle = sxParam("names", 0)
+	defer func() { tipNameStyle = 0 }()
 	ref := genTree(n, 0, false)
 	comp := genTree(n, 0, false)
 	tips := sxChoose("tips", 2) == 1
@@ -168,18 +170,26 @@ func H_C08_othertaxa() {
 	}
 	tips := sxChoose("tips", 2) == 1
 	identical := sxChoose("identical", 2) == 1
+	// the bad tree comes alone, or after a valid tree handled by the same worker
+	var list []*tree.Tree
+	bad := 0
+	if sxChoose("aftervalid", 2) == 1 {
+		list = append(list, ref.Clone())
+		bad = 1
+	}
+	list = append(list, comp)
 	sxReach("ready")
 	if sxChoose("weighted", 2) == 0 {
-		stats, err := tree.Compare(ref, oneTreeChan(comp, 1), tips, identical, 1)
+		stats, err := tree.Compare(ref, treesChan(list), tips, identical, 1)
 		sxAssert(err == nil, "Compare starts")
 		for st := range stats {
-			sxAssert(st.Err != nil, "Compare: different taxa rejected with an error")
+			sxAssert((st.Err != nil) == (st.Id == bad), "Compare: different taxa rejected with an error")
 		}
 	} else {
-		stats, err := tree.CompareWeighted(ref, oneTreeChan(comp, 1), tips, identical, 1)
+		stats, err := tree.CompareWeighted(ref, treesChan(list), tips, identical, 1)
 		sxAssert(err == nil, "CompareWeighted starts")
 		for st := range stats {
-			sxAssert(st.Err != nil, "CompareWeighted: different taxa rejected with an error")
+			sxAssert((st.Err != nil) == (st.Id == bad), "CompareWeighted: different taxa rejected with an error")
 		}
 	}
 	sxReach("checked")
